@@ -9,6 +9,7 @@
 (*      session it already holds), "Cmd" (cmd = arm / arm0 / csr / root /  *)
 (*      noc / complete / remove / label over its PASE or CASE session),    *)
 (*      "Wait", "Restart" (power cut and start-up from the store),         *)
+(*      "FactoryReset" (Matter::factory_reset, then a restart),            *)
 (*      "CorruptResum"                                                     *)
 (*  State(fabrics, sessions, resum, fs, imDead)  the device afterwards:    *)
 (*      fabrics [idx, own (whose root), inc (incarnation), label],         *)
@@ -27,7 +28,9 @@ Fresh == [fabs |-> {}, sess |-> {}, fsArmed |-> FALSE, fsFlags |-> 0,
           snap |-> {},                   \* fabrics when the fail-safe got armed (C08)
           committed |-> {},              \* [own, label]: what administrators were told is committed (C11)
           pendingLabel |-> {},           \* labels written under an armed fail-safe: [own, label]
-          lastOp |-> [op |-> "none"], removedIdx |-> 0, dirty |-> FALSE, booted |-> TRUE]
+          lastOp |-> [op |-> "none"], removedIdx |-> 0, dirty |-> FALSE,
+          gone |-> {},                   \* indices of the fabrics removed by RemoveFabric while the fail-safe is armed (C08)
+          booted |-> TRUE]
 
 Cfg(fabs) == {[idx |-> f.idx, own |-> f.own, label |-> f.label] : f \in fabs}
 Bit(flags, b) == (flags \div b) % 2 = 1
@@ -47,7 +50,7 @@ Expect(s, c, via, cmd) ==
 ReadOk(c, ok, fresh, s) == ok => \E f \in s.fabs : f.own = c
 OpOk(op, c, via, cmd, ok, code, fresh, s) ==
   /\ (Which = "C07" /\ op = "Read") => ReadOk(c, ok, fresh, s)
-  /\ (Which = "C11" /\ op = "Restart") => ok                     \* a damaged optional cache never prevents start-up
+  /\ (Which = "C11" /\ op \in {"Restart", "FactoryReset"}) => ok                     \* a damaged optional cache never prevents start-up
 AfterOp(op, c, via, cmd, ok, code, fresh, idx, s) ==
   [s EXCEPT !.lastOp = [op |-> op, c |-> c, via |-> via, cmd |-> cmd, ok |-> ok, code |-> code],
             !.removedIdx = IF op = "Cmd" /\ cmd = "remove" /\ ok /\ code = "OK" THEN idx ELSE 0]
@@ -82,19 +85,26 @@ StateOk(fabrics, sessions, resum, fsArmed, fsFlags, imDead, s) ==
        /\ \A r \in rs : \A f \in fabs : f.idx = r.fab => f.inc = r.inc
        \* OthersUntouched: removing a fabric leaves the sessions of the other fabrics alone
        /\ s.removedIdx # 0 => \A p \in s.sess : (p.fab # s.removedIdx /\ p.mode = "case") => \E x \in ss : x.id = p.id
+       \* GoneStaysGone: a fabric is on the node only if it was there before, or its administrator has just commissioned it
+       /\ \A f \in fabs : \/ \E g \in s.fabs : g.idx = f.idx /\ g.own = f.own
+                          \/ o.op = "Commission" /\ o.c = f.own
+                          \/ o.op = "Cmd" /\ o.cmd = "noc" /\ o.c = f.own
   /\ Which = "C08" =>
        \* OrderAndOnce + SameContext: the device accepted the command iff the reference does
        /\ (o.op = "Cmd" /\ o.cmd \in {"arm", "arm0", "csr", "root", "noc", "complete"} /\ o.ok /\ s.booted)
             => (Accepted(s, fsFlags, fsArmed) <=> Expect(s, o.c, o.via, o.cmd))
-       \* RollbackRestores: the fail-safe went idle without a commit: the fabrics are what they were when it was armed
-       /\ (s.fsArmed /\ ~fsArmed /\ ~(o.op = "Cmd" /\ o.cmd = "complete" /\ o.code = "OK") /\ ~s.dirty)
-            => Cfg(fabs) = s.snap
+       \* RollbackRestores: the fail-safe went idle without a commit: the fabrics are what they were when it was armed,
+       \* less the ones an administrator removed in the meantime (a removal is final at once)
+       /\ (s.fsArmed /\ ~fsArmed /\ ~(o.op = "Cmd" /\ o.cmd = "complete" /\ o.code = "OK") /\ ~s.dirty /\ o.op # "FactoryReset")
+            => Cfg(fabs) = {f \in s.snap : f.idx \notin (s.gone \cup (IF s.removedIdx # 0 THEN {s.removedIdx} ELSE {}))}
        \* the fail-safe cannot stay armed past its time, and the node keeps serving
        /\ (o.op = "Wait" /\ s.fsArmed) => ~fsArmed
        /\ ~imDead
   /\ Which = "C11" =>
        \* after a restart the node has every change that was confirmed as committed, and nothing else
-       ((o.op = "Restart" /\ o.ok) => ({[own |-> f.own, label |-> f.label] : f \in fabs} = s.committed))
+       /\ ((o.op = "Restart" /\ o.ok) => ({[own |-> f.own, label |-> f.label] : f \in fabs} = s.committed))
+       \* a factory reset leaves no fabric behind, in memory or in the store
+       /\ (o.op = "FactoryReset" => fabs = {})
 
 AfterState(fabrics, sessions, resum, fsArmed, fsFlags, imDead, s) ==
   LET fabs == SeqSet(fabrics)  o == s.lastOp
@@ -106,12 +116,13 @@ AfterState(fabrics, sessions, resum, fsArmed, fsFlags, imDead, s) ==
         ELSE IF acc /\ o.cmd = "complete" /\ o.code = "OK" THEN {x \in s.committed : x.own # o.c} \cup {[own |-> o.c, label |-> l] : l \in lab(o.c)}
         ELSE IF o.op = "Cmd" /\ o.cmd = "label" /\ o.ok /\ o.code = "OK" /\ armedFor # o.c THEN {x \in s.committed : x.own # o.c} \cup {[own |-> o.c, label |-> l] : l \in lab(o.c)}
         ELSE IF o.op = "Cmd" /\ o.cmd = "remove" /\ o.ok /\ o.code = "OK" THEN {x \in s.committed : \E f \in fabs : f.own = x.own}
+        ELSE IF o.op = "FactoryReset" THEN {}
         ELSE s.committed IN
   [s EXCEPT !.fabs = fabs, !.sess = SeqSet(sessions), !.fsArmed = fsArmed, !.fsFlags = fsFlags,
-            !.ctx = IF o.op = "Restart" THEN NoCtx ELSE NextCtx(s, fabs, fsArmed),
+            !.ctx = IF o.op \in {"Restart", "FactoryReset"} THEN NoCtx ELSE NextCtx(s, fabs, fsArmed),
             !.snap = IF fsArmed /\ ~s.fsArmed THEN Cfg(s.fabs) ELSE @,
             !.dirty = IF ~fsArmed THEN FALSE
-                      ELSE @ \/ (o.op = "Cmd" /\ o.cmd = "label" /\ o.ok /\ o.c # armedFor)     \* another administrator's committed write
-                             \/ (o.op = "Cmd" /\ o.cmd = "remove" /\ o.ok /\ o.code = "OK"),   \* a removal is final at once, whoever asks
+                      ELSE @ \/ (o.op = "Cmd" /\ o.cmd = "label" /\ o.ok /\ o.c # armedFor),    \* another administrator's committed write
+            !.gone = IF ~fsArmed THEN {} ELSE IF s.removedIdx # 0 THEN @ \cup {s.removedIdx} ELSE @,
             !.committed = committed1, !.removedIdx = 0, !.lastOp = [op |-> "none"], !.booted = TRUE]
 =============================================================================
